@@ -15,7 +15,7 @@ for d in sorted(glob.glob(V + '/seeded/C*-*')):
     mm = re.search(r'(?is)(needs? (?:in order )?to manifest|what it needs)[^\n]*\n(.*?)(\n\s*\n|\n#|\Z)', notes)
     if mm:
         needs = ' '.join(mm.group(2).split())[:600]
-    meta = {'property': prop, 'origin': 'independent sub-agent given only the property text and a scratch worktree (round %s)' % {'a': '1', 'b': '2', 'c': '3', 'd': '4', 'e': '5'}[name[-1]],
+    meta = {'property': prop, 'origin': 'independent sub-agent given only the property text and a scratch worktree (round %s)' % {'a': '1', 'b': '2', 'c': '3', 'd': '4', 'e': '5', 'f': '6'}[name[-1]],
             'breaks': prop, 'needs_to_manifest': needs or notes[:600],
             'confirmed': {'base_commit': ver.get('base'), 'suite_with_change': ver.get('suite'), 'demo_without_change_rc': ver.get('demo_pristine_rc'),
                           'demo_with_change_rc': ver.get('demo_patched_rc'), 'confirmed': ver.get('confirmed'),
